@@ -23,8 +23,8 @@ RULE = ('cases: seeded populations of 0-12 agents (after an add/remove history, 
         'query. Non-trivial query: the filter keeps some but not all agents AND involves a tag filter or >=2 types; distinct by '
         '(population signature, query).')
 ASSUMPTIONS = ['"every member is reachable" is checked as: each of the k members is drawn within 60*k draws (a uniform pick misses one with probability < 1e-25)']
-FLOORS = {'quick': {'populations_queried_after_their_model_completed': 85, 'cases_in_mode_debuglog': 84, 'joins_failing_half_way': 88, 'same_question_asked_of_an_unrelated_model_first': 1758, 'queries': 6000, 'tag_zero_queries': 800, 'tag_queries': 3000, 'template_queries': 4000, 'empty_filters': 1500,
-                    'random_picks': 100000, 'reachability_checks': 700, 'shuffles': 8000, 'shuffles_reordered': 2000, 'size_preserving_swaps': 1500, 'big_populations': 6, 'ids_taken_over_by_new_objects': 100, 'nested_environment_agents': 300, 'removals_after_resident_attach': 60, 'secondary_environment_populations': 100, 'completed_model_populations': 80,
+FLOORS = {'quick': {'queries_naming_a_catalogue_component': 952, 'agents_that_gave_a_component_back_before_joining': 757, 'rounds_of_departures_and_arrivals_between_two_queries': 483, 'populations_queried_after_their_model_completed': 85, 'cases_in_mode_debuglog': 84, 'joins_failing_half_way': 88, 'same_question_asked_of_an_unrelated_model_first': 1758, 'queries': 6000, 'tag_zero_queries': 800, 'tag_queries': 3000, 'template_queries': 4000, 'empty_filters': 1500,
+                    'random_picks': 100000, 'reachability_checks': 700, 'shuffles': 8000, 'shuffles_reordered': 1626, 'size_preserving_swaps': 1500, 'big_populations': 6, 'ids_taken_over_by_new_objects': 100, 'nested_environment_agents': 300, 'removals_after_resident_attach': 60, 'secondary_environment_populations': 100, 'completed_model_populations': 80,
                     'reach:Core.Environment.get_agents': 100000, 'reach:Core.Environment.get_random_agent': 100000,
                     'reach:Core.Environment.shuffle': 8000},
           'thorough': {'queries': 480000, 'reachability_checks': 66000}}
